@@ -71,6 +71,9 @@ namespace sim
          { "unsigned_rule_with_action", RC::INTEGER },
          { "signed_rule_with_action", RC::INTEGER },
          { "maximum_rule_with_action", RC::INTEGER },
+         { "mi_raise_a", RC::MI_RAISE },
+         { "mi_raise_d", RC::MI_RAISE },
+         { "mi_msg_b", RC::MI_MSG },
          { "top0", RC::TOP },
          { "top1", RC::TOP },
          { "top2", RC::TOP },
